@@ -71,6 +71,7 @@ fn main() {
             report::replay(&Paths::from_env(), &PathBuf::from(&args[2]))
         }
         "l-worker" => tierl::worker_main(&args[2..]),
+        "p-run" => report::debug_p_run(&Paths::from_env(), &args[2..]),
         _ => usage(),
     };
     std::process::exit(code);
